@@ -227,7 +227,8 @@ def _inv_derive_nonunit(L):
 
 
 def _inv_derive_empty_symbol(L):
-    L.classes['DAB'].derive_unit_from(L.units['a0'][0], L.units['b0'][0], symbol='')
+    # (units whose generated symbol would be free, so that only the empty symbol can be the reason)
+    L.classes['DAB'].derive_unit_from(L.units['a1'][0], L.units['b0'][0], symbol='')
 
 
 def _inv_derive_dup_symbol(L):
@@ -257,7 +258,7 @@ INVALID = [
     ('derive-too-many', ('DAB',), 'ValueError', _inv_derive_too_many, ['dw']),
     ('derive-on-base', ('DA',), 'TypeError', _inv_derive_on_base, ['dz']),
     ('derive-nonunit', ('DAB',), 'TypeError', _inv_derive_nonunit, ['dv']),
-    ('derive-empty-symbol', ('DAB',), 'ValueError', _inv_derive_empty_symbol, ['']),
+    ('derive-empty-symbol', ('DAB', 'a1'), 'ValueError', _inv_derive_empty_symbol, ['', 'a1/b0']),
     ('derive-dup-symbol', ('DAB',), 'ValueError', _inv_derive_dup_symbol, []),
 ]
 
